@@ -314,7 +314,14 @@ func (w *World) newProvider() (*provider.Provider, error) {
 			})),
 	}
 	for _, c := range spec.Static {
-		opts = append(opts, provider.WithStaticClient(w.clients[c.ID]))
+		sc := w.clients[c.ID]
+		if spec.FreshPer {
+			// another instance (another process) has its own objects for the static clients
+			cp := *sc
+			cp.RedirectURIs = append([]string(nil), sc.RedirectURIs...)
+			sc = &cp
+		}
+		opts = append(opts, provider.WithStaticClient(sc))
 	}
 	for _, o := range spec.Opts {
 		switch o.Name {
